@@ -31,6 +31,8 @@ type Program struct {
 	alias     map[*ssa.Function]string // renamed function -> recorded identity
 	Renames   []string
 	addrTaken map[*ssa.Function]bool
+	invokedMethods map[string]bool
+	importing map[*ssa.Function]bool
 }
 
 // currentProgram is the program being analysed (one per process); used to present renamed functions
